@@ -75,3 +75,24 @@ func Clone(s string) string             { c(len(s)); return strings.Clone(s) }
 func NewReader(s string) *Reader        { return strings.NewReader(s) }
 func NewReplacer(oldnew ...string) *Replacer { return strings.NewReplacer(oldnew...) }
 func ToUpperSpecial(cs unicode.SpecialCase, s string) string { c(len(s)); return strings.ToUpperSpecial(cs, s) }
+
+// the rest of the package's functions (whole-input cost), so that any use of "strings" compiles in the instrumented build
+func ContainsFunc(s string, f func(rune) bool) bool { c(len(s)); return strings.ContainsFunc(s, f) }
+func CutPrefix(s, prefix string) (string, bool)     { c(len(prefix)); return strings.CutPrefix(s, prefix) }
+func CutSuffix(s, suffix string) (string, bool)     { c(len(suffix)); return strings.CutSuffix(s, suffix) }
+func LastIndexFunc(s string, f func(rune) bool) int {
+	i := strings.LastIndexFunc(s, f)
+	c(scannedBack(i, len(s)))
+	return i
+}
+func SplitAfter(s, sep string) []string         { c(len(s)); return strings.SplitAfter(s, sep) }
+func SplitAfterN(s, sep string, n int) []string { c(len(s)); return strings.SplitAfterN(s, sep, n) }
+func ToLowerSpecial(cs unicode.SpecialCase, s string) string {
+	c(len(s))
+	return strings.ToLowerSpecial(cs, s)
+}
+func ToTitle(s string) string { c(len(s)); return strings.ToTitle(s) }
+func ToTitleSpecial(cs unicode.SpecialCase, s string) string {
+	c(len(s))
+	return strings.ToTitleSpecial(cs, s)
+}
